@@ -59,6 +59,35 @@ example : Authentic toy .afterAuth 10 10 exLive ∧ LiveHist toy .afterAuth 10 1
 
 /-! ### 2. bounded faults ⇒ everything is delivered -/
 
+/-- THE REFINEMENT IN THE DIRECTION LIVENESS NEEDS, for EVERY C01 history (any order and multiplicity of deliveries,
+acknowledgements, losses, picks, reads, local calls): from the state after every history of the stack (AEAD integrity,
+sink of `d` not failed), the packet-level carriage `liftAll … sops` of a C01 history `sops` of stream `(d, sid)` — each C01
+`deliver i` = "seal a packet with STREAM frame `i`, hand exactly that ciphertext to the sink" — contains no forgery, hands
+the sink exactly the ciphertexts it seals (each once, in order), touches no other stream and no error flag, dispatches
+every packet it seals, and leaves the stream in the state the C01 model reaches by `sops`. -/
+theorem net_carries_c01_history {C : Type} (K : Crypto C) (ord : Order) (sw rw : Nat) (ops : List (Op C))
+    (hn : Authentic K ord sw rw ops) (d : Dir) (sid : Nat) (hne : (after K ord sw rw ops).connErr d = none)
+    (sops : List Stream.Op) :
+    let σ0 := after K ord sw rw ops
+    let coop := liftAll K ord d sid σ0 sops
+    let τ := run K ord σ0 coop
+    τ.streams d sid = (σ0.streams d sid).run sops ∧
+    (∀ d' sid', ¬ (d' = d ∧ sid' = sid) → τ.streams d' sid' = σ0.streams d' sid') ∧
+    Authentic K ord sw rw (ops ++ coop) ∧ τ.wire d = σ0.wire d ++ recvd d coop ∧ (∀ d', d' ≠ d → recvd d' coop = []) ∧
+    (τ.delivered d).length + (σ0.sent d).length = (τ.sent d).length + (σ0.delivered d).length ∧
+    τ.connErr = σ0.connErr := by
+  intro σ0 coop τ
+  have hi : Inv K sw rw σ0 := inv_run ord ops _ (inv_init K sw rw) hn
+  have L := liftAll_run ord d sid sops hi hne
+  exact ⟨L.str, L.other, noForgery_append K ord _ _ _ hn L.auth, L.wire, fun d' hd => (L.wireO d' hd).2, L.deliv d, L.err⟩
+
+-- non-vacuity: out-of-order, duplicated deliveries of the C01 level carried as packets on top of `exLive`
+example :
+    let σ0 := after toy .afterAuth 10 10 exLive
+    let τ := run toy .afterAuth σ0 (liftAll toy .afterAuth .c2s 0 σ0 [.lose 0, .pick 0 2, .deliver 2, .deliver 2, .deliver 0, .read 9])
+    (τ.streams .c2s 0).out = [7, 8, 9] ∧ (τ.sent .c2s).length = 5 ∧ (τ.delivered .c2s).map (·.pn) = [1, 2, 3, 4] := by
+  decide
+
 /-- LIVENESS of the abstract stack.  From the state after EVERY history `ops` (AEAD integrity, no endpoint terminated,
 the sink of `d` has not failed), for every stream `(d, sid)` that fits its sender's window, for EVERY choice `keep` of
 which STREAM frames in flight are lost for good and which arrive, and EVERY complete sequence `ps` of legal
